@@ -66,36 +66,38 @@ type simPeer struct {
 	w   *simWorld
 	cfg *PeerCfg
 
-	mu      sync.Mutex
-	conn    *simConn
-	sess    int
-	up      bool
-	upAt    time.Duration
-	view    map[viewKey]*viewRoute
-	eor     map[wFamily]int
-	sent    map[viewKey]*annRoute
-	rxOpen  *wOpenMsg
-	dec     wOpts
-	enc     wOpts // how this peer encodes what it sends (path ids, AS width)
-	notifs  []wNotif
-	rx      []rxRec
-	rxSeq   int
-	hold    int
-	kaStop  chan struct{}
-	downCh  chan struct{}
-	downWhy string
-	maxLen  int
-	rrSeen  int
-	kaTimes []time.Duration
-	passive bool // no keepalives / no reactions (used by fsm scripts)
-	grCapFams []string // families listed in the next GR capability (nil: as configured)
-	txOpen    []byte   // the OPEN this peer sent on the current session
-	rxOpenRaw []byte   // gobgp's OPEN as received on the current session (whole message)
-	sentLog   []sentRec // every UPDATE handed to the transport, in order (monitoring-record oracle)
-	sessEnd   map[int]time.Duration // session number -> instant this side saw it end
-	eorSent   map[wFamily]time.Duration // End-of-RIB markers this peer sent on the current session
-	limitHit  bool                      // the model says this session exceeded the configured prefix limit
-	limitTrips int                      // sessions so far that exceeded it
+	mu         sync.Mutex
+	conn       *simConn
+	sess       int
+	up         bool
+	upAt       time.Duration
+	view       map[viewKey]*viewRoute
+	eor        map[wFamily]int
+	sent       map[viewKey]*annRoute
+	rxOpen     *wOpenMsg
+	dec        wOpts
+	enc        wOpts // how this peer encodes what it sends (path ids, AS width)
+	notifs     []wNotif
+	rx         []rxRec
+	rxSeq      int
+	hold       int
+	kaStop     chan struct{}
+	downCh     chan struct{}
+	downWhy    string
+	maxLen     int
+	rrSeen     int
+	kaTimes    []time.Duration
+	passive    bool                      // no keepalives / no reactions (used by fsm scripts)
+	grCapFams  []string                  // families listed in the next GR capability (nil: as configured)
+	txOpen     []byte                    // the OPEN this peer sent on the current session
+	rxOpenRaw  []byte                    // gobgp's OPEN as received on the current session (whole message)
+	sentLog    []sentRec                 // every UPDATE handed to the transport, in order (monitoring-record oracle)
+	sessEnd    map[int]time.Duration     // session number -> instant this side saw it end
+	eorSent    map[wFamily]time.Duration // End-of-RIB markers this peer sent on the current session
+	limitMaybe int                       // limit trips whose NOTIFICATION may or may not get through (stalled neighbour)
+	stalled    bool                      // the neighbour's receive window is full (stall fault)
+	limitHit   bool                      // the model says this session exceeded the configured prefix limit
+	limitTrips int                       // sessions so far that exceeded it
 
 	// hooks for family-specific monitors
 	onMsg func(p *simPeer, m *wMsg)
@@ -1012,6 +1014,7 @@ func (p *simPeer) dropSession(kind string) bool {
 		}
 		if got < p.limitTrips {
 			p.limitTrips--
+			p.limitMaybe++
 			p.w.probe("prefix_limit_notification_forgone")
 		}
 	}
